@@ -27,6 +27,7 @@ import random
 import threading
 import traceback
 import itertools
+import logging
 import _thread
 
 _RealLock = threading.Lock
@@ -456,6 +457,28 @@ class TracedRLock(TracedLock):
 TRACKED = []  # library worker threads created since last reset
 ACTORS = []  # harness actor threads of the current case
 THREAD_ERRORS = []  # uncaught exceptions in any thread
+CF_CALLBACK_ERRORS = []  # "exception calling callback" records of the stdlib: a done-callback raised into a plain Future
+
+
+class _CFTap(logging.Handler):
+    """concurrent.futures logs (and swallows) exceptions raised by done-callbacks of its futures.  The library's
+    own callbacks on delegate / input futures run there: what they let escape ends up in this log only."""
+
+    def emit(self, record):
+        try:
+            if "exception calling callback" not in str(record.msg):
+                return
+            ei = record.exc_info
+            exc = ei[1] if ei else None
+            if isinstance(exc, (DeadlockBroken, CaseAbort)):
+                return
+            tb = traceback.extract_tb(ei[2]) if ei and ei[2] else []
+            frames = ["%s:%s:%d" % (os.path.basename(f.filename), f.name, f.lineno) for f in tb]
+            with MU:
+                CF_CALLBACK_ERRORS.append({"type": type(exc).__name__ if exc is not None else "?", "msg": str(exc)[:200],
+                                           "frames": frames[-6:], "in_library": any(PKG_DIR and f.filename.startswith(PKG_DIR) for f in tb)})
+        except Exception:
+            pass
 
 
 class TrackedThread(_RealThread):
@@ -960,6 +983,9 @@ def install(repo=None, fakeprom=False):
         if k == "more_executors" or k.startswith("more_executors."):
             del sys.modules[k]
     PKG_DIR = os.path.join(repo, "more_executors") + os.sep
+    _tap = _CFTap()
+    _tap.setLevel(logging.ERROR)
+    logging.getLogger("concurrent.futures").addHandler(_tap)
     saved = (threading.Lock, threading.RLock, threading.Event, threading.Thread, time.monotonic)
     threading.Lock = TracedLock
     threading.RLock = TracedRLock
@@ -1042,6 +1068,7 @@ def reset_case():
         TRACKED[:] = [t for t in TRACKED if t.vf_started and t.is_alive() and not t.vf_finished]
         del ACTORS[:]
         del THREAD_ERRORS[:]
+        del CF_CALLBACK_ERRORS[:]
         LM.waiting.clear()
         LM.joining.clear()
         LM.held.clear()
